@@ -80,6 +80,8 @@ enum Item {
     Garbage { target: Tid, seed: u64 },
     /// something that is not a file where the record should be: a directory (empty or not)
     DirAtRecord { target: Tid, populated: bool },
+    /// a named pipe where the record should be (nobody writes to it)
+    FifoAtRecord { target: Tid },
     Foreign { target: Tid, from: Tid },
 }
 
@@ -104,6 +106,7 @@ impl Item {
             Item::ZeroByte { target, idx } => format!("zero:{}:{}", sc.sim_id(target.0, &target.1), idx),
             Item::Garbage { target, seed } => format!("garbage:{}:{}", sc.sim_id(target.0, &target.1), seed),
             Item::DirAtRecord { target, populated } => format!("dir-at-record:{}:{}", sc.sim_id(target.0, &target.1), if *populated { "populated" } else { "empty" }),
+            Item::FifoAtRecord { target } => format!("fifo-at-record:{}", sc.sim_id(target.0, &target.1)),
             Item::Foreign { target, from } => format!("foreign:{}:{}", sc.sim_id(target.0, &target.1), sc.sim_id(from.0, &from.1)),
         }
     }
@@ -130,7 +133,7 @@ impl Property for C05 {
         }
     }
     fn rule(&self) -> &'static str {
-        "one case = a small generated project (1-4 build targets with inputs, X.output chains) + an optional priming invocation and edits + one main invocation under a seeded schedule. The main invocation is first run to completion (R0: N scheduling decisions, final bytes of every record), then ENUMERATED: zinoma killed (_exit) at every decision index 1..N; SIGINT at every decision index; each script that ran made to exit non-zero / die by signal / fail to spawn; each record replaced by every strict prefix (torn write; quick tier: 32 evenly spaced lengths incl. 0 and len-1), by single-bit flips (quick: ~100 positions; tree unchanged / an own input rewritten / a declared output altered), by every byte zeroed in turn with a declared output altered (quick: one record per case), by garbage and by another target's record; and, when the history has a priming run, the interruptions again (every 5th index) followed by a REVERT of the edited inputs to what the last successful record saw, plus each failing script combined with an I/O error (EIO) on zinoma's own n-th stat / unlink / open (n = 1..14), with EACCES on the n-th unlink, and with the target's `input:` removed from the project file for the failing run and put back afterwards. After each, a fault-free recovery invocation runs. Oracle: a target R0 had to run whose on-disk record is not byte-identical to R0's final record is started again, never skipped; recovery never panics/aborts/errs; a target whose declared input changed is never skipped whatever the record bytes; after a revert, a target whose script had started and not completed in the interrupted run is started again. evaluations = simulated invocations; Also enumerated: every write(2) (quick tier: ~24 evenly spaced ones) and open made while records are stored, failing with ENOSPC / EIO / EACCES, interrupted, or accepting half its buffer (after a short or interrupted write the record must be there in full; after an error the target must run again once its inputs are reverted); a directory, empty or populated, lying where the record should be. distinct_nontrivial = distinct (interrupted-run order hash, fault item) pairs in which the fault hit after the first script start"
+        "one case = a small generated project (1-4 build targets with inputs, X.output chains) + an optional priming invocation and edits + one main invocation under a seeded schedule. The main invocation is first run to completion (R0: N scheduling decisions, final bytes of every record), then ENUMERATED: zinoma killed (_exit) at every decision index 1..N; SIGINT at every decision index; each script that ran made to exit non-zero / die by signal / fail to spawn; each record replaced by every strict prefix (torn write; quick tier: 32 evenly spaced lengths incl. 0 and len-1), by single-bit flips (quick: ~100 positions; tree unchanged / an own input rewritten / a declared output altered), by every byte zeroed in turn with a declared output altered (quick: one record per case), by garbage and by another target's record; and, when the history has a priming run, the interruptions again (every 5th index) followed by a REVERT of the edited inputs to what the last successful record saw, plus each failing script combined with an I/O error (EIO) on zinoma's own n-th stat / unlink / open (n = 1..14), with EACCES on the n-th unlink, and with the target's `input:` removed from the project file for the failing run and put back afterwards. After each, a fault-free recovery invocation runs. Oracle: a target R0 had to run whose on-disk record is not byte-identical to R0's final record is started again, never skipped; recovery never panics/aborts/errs; a target whose declared input changed is never skipped whatever the record bytes; after a revert, a target whose script had started and not completed in the interrupted run is started again. evaluations = simulated invocations; Also enumerated: every write(2) (quick tier: ~24 evenly spaced ones) and open made while records are stored, failing with ENOSPC / EIO / EACCES, interrupted, or accepting half its buffer (after a short or interrupted write the record must be there in full; after an error the target must run again once its inputs are reverted); a directory, empty or populated, or a named pipe lying where the record should be. distinct_nontrivial = distinct (interrupted-run order hash, fault item) pairs in which the fault hit after the first script start"
     }
     fn assumptions(&self) -> Vec<&'static str> {
         vec![
@@ -402,6 +405,7 @@ impl Property for C05 {
             items.push(Item::Garbage { target: t.clone(), seed: len as u64 * 104729 + 2 });
             items.push(Item::DirAtRecord { target: t.clone(), populated: false });
             items.push(Item::DirAtRecord { target: t.clone(), populated: true });
+            items.push(Item::FifoAtRecord { target: t.clone() });
             for other in finals.keys() {
                 if other != t {
                     items.push(Item::Foreign { target: t.clone(), from: other.clone() });
@@ -547,6 +551,20 @@ impl Property for C05 {
                     }
                     interrupted = None;
                 }
+                Item::FifoAtRecord { target } => {
+                    if restore(&base2, root).is_err() {
+                        break;
+                    }
+                    case.clock = clock_after_r0;
+                    let p = state_file(sc, &case, target);
+                    let _ = std::fs::remove_file(&p);
+                    if let Ok(c) = std::ffi::CString::new(p.to_string_lossy().as_bytes()) {
+                        unsafe {
+                            libc::mkfifo(c.as_ptr(), 0o644);
+                        }
+                    }
+                    interrupted = None;
+                }
                 Item::Foreign { target, from } => {
                     if restore(&base2, root).is_err() {
                         break;
@@ -557,12 +575,19 @@ impl Property for C05 {
                 }
             }
             // on-disk records after the interruption
-            let on_disk: BTreeMap<Tid, Option<Vec<u8>>> = builds.iter().map(|t| (t.clone(), std::fs::read(state_file(sc, &case, t)).ok())).collect();
+            // (only a regular file is read: opening a named pipe would block the driver itself)
+            let on_disk: BTreeMap<Tid, Option<Vec<u8>>> = builds
+                .iter()
+                .map(|t| {
+                    let p = state_file(sc, &case, t);
+                    (t.clone(), if std::fs::symlink_metadata(&p).map(|m| m.file_type().is_file()).unwrap_or(false) { std::fs::read(&p).ok() } else { None })
+                })
+                .collect();
             let in_before: BTreeMap<Tid, model::ResState> = builds.iter().map(|t| (t.clone(), super::history::states(sc, &case, t).0)).collect();
             let _ = in_before;
             let r2 = run_invocation(sc, &mut case, &recovery, "r2");
             stats.absorb_run(&recovery, &r2, false);
-            if matches!(it, Item::Prefix { .. } | Item::Flip { .. } | Item::ZeroByte { .. } | Item::Garbage { .. } | Item::Foreign { .. } | Item::DirAtRecord { .. }) {
+            if matches!(it, Item::Prefix { .. } | Item::Flip { .. } | Item::ZeroByte { .. } | Item::Garbage { .. } | Item::Foreign { .. } | Item::DirAtRecord { .. } | Item::FifoAtRecord { .. }) {
                 stats.nontrivial.insert(r2.order_hash ^ simrt::stamp::fnv(simrt::stamp::FNV_INIT, tag.as_bytes()));
                 *stats.faults.entry(match it {
                     Item::Prefix { .. } => "torn-record-prefix".to_string(),
@@ -570,6 +595,7 @@ impl Property for C05 {
                     Item::ZeroByte { .. } => "record-byte-zeroed".to_string(),
                     Item::Garbage { .. } => "record-garbage".to_string(),
                     Item::DirAtRecord { .. } => "directory-at-record-path".to_string(),
+                    Item::FifoAtRecord { .. } => "named-pipe-at-record-path".to_string(),
                     _ => "record-foreign".to_string(),
                 }).or_insert(0) += 1;
             } else if matches!(it, Item::Signal(..)) {
@@ -644,7 +670,7 @@ impl Property for C05 {
                         let done = interrupted.as_ref().map(|r1| completed_in(r1, sc, t, &disp) && on_disk[t].is_some()).unwrap_or(false);
                         started.contains(t) && !done
                     }
-                    Item::Prefix { target, .. } | Item::Garbage { target, .. } | Item::DirAtRecord { target, .. } => target == t,
+                    Item::Prefix { target, .. } | Item::Garbage { target, .. } | Item::DirAtRecord { target, .. } | Item::FifoAtRecord { target } => target == t,
                     Item::Flip { target, .. } | Item::ZeroByte { target, .. } => target == t && edited_ok,
                     Item::Foreign { target, from } => target == t && finals.get(from) != finals.get(t) && !foreign_matches(sc, &case, t, from),
                 };
@@ -662,6 +688,7 @@ impl Property for C05 {
                         Item::ZeroByte { idx, .. } => format!("byte {} of its record is zeroed and one of its declared outputs was altered", idx),
                         Item::Garbage { .. } => "its record is garbage".to_string(),
                         Item::DirAtRecord { .. } => "a directory lies where its record should be".to_string(),
+                        Item::FifoAtRecord { .. } => "a named pipe lies where its record should be".to_string(),
                         Item::Foreign { from, .. } => format!("its record file holds the record of {}", sc.display(from.0, &from.1)),
                     };
                     let _ = interrupted.as_ref();
